@@ -362,3 +362,42 @@ Definition quant_flat (case : Z * Z * list Z * list fv * list fv) : list Z :=
   let '(a, b, c, xp, yp) := case in
   [quantile_level (affine_interp c) a b xp yp;
    zlen (event_density (affine_interp c) xp yp)].
+
+(* ---------------------------------------------------------------------- *)
+(* kde_methods.kde_multivariate: how the evaluation positions reach        *)
+(* statsmodels (external/statsmodels/nonparametric/_kernel_base.py)         *)
+(* ---------------------------------------------------------------------- *)
+(* a 2-D array: (number of rows, number of columns, rows) *)
+Definition matrix := (Z * Z * list (list Z))%type.
+
+Definition transpose (m : matrix) : matrix :=
+  let '(r, c, rows) := m in
+  (c, r, map (fun j => map (fun row => nth j row 0) rows)
+             (seq 0 (Z.to_nat c))).
+
+(* _adjust_shape(dat, k_vars) for 2-D input: transposed only when
+   shape[0] == k_vars and shape[1] != k_vars; the final reshape to
+   (nobs, k_vars) raises unless there are k_vars columns (or no element) *)
+Definition adjust_shape (k : Z) (m : matrix) : option (list (list Z)) :=
+  let '(r, c, rows) := m in
+  let m' := if (r =? k) && negb (c =? k) then transpose m else m in
+  let '(r', c', rows') := m' in
+  if (c' =? k) || (r' =? 0) then Some rows' else None.
+
+Definition point_rows (xo yo : list Z) : list (list Z) :=
+  map (fun p => [fst p; snd p]) (combine xo yo).
+
+(* before the proposed fix: positions = np.vstack([xout, yout]), shape (2,N) *)
+Definition mv_points_vstack (xo yo : list Z) : option (list (list Z)) :=
+  adjust_shape 2 (2, zlen xo, [xo; yo]).
+(* fixed code: positions = np.column_stack([xout, yout]), shape (N,2) *)
+Definition mv_points (xo yo : list Z) : option (list (list Z)) :=
+  adjust_shape 2 (zlen xo, 2, point_rows xo yo).
+
+(* case = (r, c, rows): _adjust_shape(np.array(rows).reshape(r, c), 2);
+   result: 0 :: flattened rows, or [1] for ValueError *)
+Definition adjust_flat (case : Z * Z * list (list Z)) : list Z :=
+  match adjust_shape 2 case with
+  | Some rows => 0 :: zlen rows :: concat rows
+  | None => [1]
+  end.
